@@ -4,7 +4,7 @@ from __future__ import annotations
 from typing import Any, Dict, List
 
 from ..sim.gen import profile
-from .simprop import (DRAIN, SimEngine, abandon_then_close_family, blocked_spawners_family, close_overlap_family, double_cancel_family, failed_close_then_unlock_family, flush_raises_family, flush_vs_spawner_family, name_reuse_family, rejected_then_cancel_family, sibling_maps_family, swallow_then_cancel_again_family, thousand_tasks_family, two_flushes_family, overlap_family, sweep_space,
+from .simprop import (DRAIN, SimEngine, abandon_then_close_family, blocked_spawners_family, close_overlap_family, double_cancel_family, failed_close_then_unlock_family, flush_raises_family, flush_vs_spawner_family, name_reuse_family, rejected_then_cancel_family, sibling_maps_family, swallow_then_cancel_again_family, thousand_tasks_family, two_flushes_family, unlock_while_closing_family, overlap_family, sweep_space,
                       two_pools_family, worker_in_flush_family)
 
 FIN = [1, 1, 2, 2, 3, 4, 0, None]
@@ -30,7 +30,8 @@ def _ov(tails, thin):
 
 def _c01() -> SimEngine:
     prof = profile(sizes=FIN, p_cb_raise=0.12, p_worker_raise=0.1, p_callfault=0.1, p_bad_return=0.06,
-                   ops={"set_size": 0, "cancel": 2, "cancel_group": 1.2, "flush": 1.5, "close": 0.3, "spawn": 9, "abandon": 0.6})
+                   new_sizes=[0, 1, 2, 3, 4, None],
+                   ops={"set_size": 0.8, "cancel": 2, "cancel_group": 1.2, "flush": 1.5, "close": 0.3, "spawn": 9, "abandon": 0.6})
     emb = profile(sizes=FIN, p_embedded=0.4, p_cb_raise=0.1, ops={"spawn": 9, "cancel": 2})
     def sw(tier: str):
         perts = [{"op": "flush", "pool": 0}, {"op": "flush", "pool": 0, "re": True}]
@@ -49,13 +50,14 @@ def _c01() -> SimEngine:
 
     return SimEngine(
         "C01",
-        "programs: 1 pool of fixed size in {0,1,2,3,4,inf}, <=30(quick)/60 steps over spawn/cancel/cancel_group/cancel_all/stop/flush/"
+        "programs: 1 pool of size in {0,1,2,3,4,inf} fixed while tasks are in flight (assignments of pool_size are made only while the pool is "
+        "unoccupied, others are skipped and counted), <=30(quick)/60 steps over spawn/cancel/cancel_group/cancel_all/stop/flush/"
         "close/lock/gate/tick in placements inline/task/call_soon and embedded in workers, callbacks, iterators. Non-trivial: at some "
         "observation point live workers == pool size (finite) while a spawner still had work to do (someone waits for room). "
         "Distinct = canonical JSON hash of the program.",
-        [("default", prof, 0.58), ("embedded-heavy", emb, 0.25), ("two-pools", dict(prof, max_pools=2), 0.15), ("burst", BURST, 0.02)],
+        [("default", prof, 0.58), ("embedded-heavy", emb, 0.25), ("two-pools", dict(prof, max_pools=2, ops=dict(prof["ops"], new_pool=0.8)), 0.15), ("burst", BURST, 0.02)],
         lambda case, l: "pool-full-with-spawner-waiting" in l,
-        n_quick=4000, n_thorough=200000, sweep=sw,
+        n_quick=4000, n_thorough=200000, sweep=sw, guards=("D4",),
         floors={"pool-full-with-spawner-waiting": 0.3, "idle:pool-full": 0.3})
 
 
@@ -353,7 +355,8 @@ _TF = ("two-flushes family (overlapping flush() calls, tasks entering their end 
 _SM = ("sibling-maps family (2-3 groups of the map family and apply side by side, one cancelled, the others run to the end)", lambda t: sibling_maps_family(_thin(t, 3)))
 _FC = ("failed-close-then-unlock family (gather_and_close raises a task's exception: pool locked, not closed; unlock reopens; a later close closes for good)", lambda t: failed_close_then_unlock_family())
 _SW = ("swallow-then-cancel-again family (a worker that shrugged off one cancellation is cancelled again by id / group / globally / stop)", lambda t: swallow_then_cancel_again_family())
-FAMILIES = {"C09": [_RC, _FC], "C05": [_SM], "C01": [_FS], "C08": [_FC, _FS, _DC, ("abandon-then-close family (a task left in asyncio's cancelled state by the user's own cancellation of a flush() caller, healthy tasks still running at gather_and_close)", lambda t: abandon_then_close_family(_thin(t, 2)))], "C02": [_BS, _FS, _DC], "C03": [_TP, _FX, _DC, _TF], "C04": [_NR, _BS], "C06": [_WF, _TP, _FR, _FX, _TF, _SW], "C13": [_FX, _TF], "C07": [_NR, _WF, _FS, _DC, _SM, _SW], "C10": [_NR], "C11": [_BS, _TP, ("thousand-tasks family (ids with four digits in task names, groups, callbacks)", lambda t: thousand_tasks_family())], "C14": [_BSS, _SW]}
+_UC = ("unlock-while-closing family (unlock() during a pending gather_and_close(), no request in that window: the pool still ends closed for good)", lambda t: unlock_while_closing_family())
+FAMILIES = {"C09": [_RC, _FC, _UC], "C05": [_SM], "C01": [_FS], "C08": [_UC, _FC, _FS, _DC, ("abandon-then-close family (a task left in asyncio's cancelled state by the user's own cancellation of a flush() caller, healthy tasks still running at gather_and_close)", lambda t: abandon_then_close_family(_thin(t, 2)))], "C02": [_BS, _FS, _DC], "C03": [_TP, _FX, _DC, _TF], "C04": [_NR, _BS], "C06": [_WF, _TP, _FR, _FX, _TF, _SW], "C13": [_FX, _TF], "C07": [_NR, _WF, _FS, _DC, _SM, _SW], "C10": [_NR], "C11": [_BS, _TP, ("thousand-tasks family (ids with four digits in task names, groups, callbacks)", lambda t: thousand_tasks_family())], "C14": [_BSS, _SW]}
 
 
 def make(pid: str) -> SimEngine:
